@@ -529,9 +529,48 @@ def r7_case(ctx, rule='C07.R7'):
             rep.ok(rule, '%s(): %d words classified as documented' % (name, len(CASE_WORDS)))
     return n
 
+# =============================================================================== R8
+
+def r8(ctx):
+    """The accepting lists REJECT walks are sized by numas: yy_acclist is declared with numas + 1 entries and every DFA state
+    contributes its nacc rules.  Each place in ntod() where snstods() reports a NEW state (the start states and the main
+    loop) adds nacc to numas on every path: a store numas = numas + nacc whose only controlling test, below the test of the
+    snstods() result, is that result.  (A state whose accepting rules are not counted makes the list shorter than the
+    entries gentabs() writes.)"""
+    rep = ctx.rep; prog = ctx.flex
+    f = prog.fn('ntod')
+    if f is None or not f.blocks: rep.broken('C07.R8: ntod not found')
+    res = ir.Resolver(f); cfg = prog.cfg(f, cut=False)
+    # the end-of-buffer state is created with an empty accepting set (nacc is the constant 0; it gets `++numas`): not an instance
+    calls = [c for c in f.ins if c.op == 'call' and c.callee == 'snstods' and len(c.ops) > 3 and c.ops[3][0] != 'int']
+    if len(calls) < 2: rep.broken('C07.R8: %d calls of snstods with a computed accepting set in ntod' % len(calls))
+    adds = []
+    for x in f.ins:
+        if x.op != 'store' or res.loc(x.ops[1]) != ('global', 'numas'): continue
+        d = f.def_of(x.ops[0])
+        if d is None or d.op != 'add': continue
+        ls = [res.loc(e.ops[0]) for o in d.ops for e in flow.value_slice(f, o) if e.op == 'load']
+        if ('global', 'numas') in ls and any(l[0] == 'local' and l[1].startswith('nacc') for l in ls): adds.append(x)
+    n = 0
+    for c in calls:
+        n += 1
+        brs = [b.ins[-1] for b in f.blocks if b.ins and b.ins[-1].op == 'br' and b.ins[-1].ops and c in flow.value_slice(f, b.ins[-1].ops[0])]
+        key = 'C07.R8:dfa.c:ntod:new-state-not-counted-in-numas#%d' % n
+        if len(brs) != 1: rep.broken('C07.R8: the result of snstods@%s is tested by %d branches' % (c.line, len(brs)))
+        br = brs[0]
+        good = [x for x in adds if [b for b, t in cfg.control_deps(x.blk)] == [br]]
+        if good:
+            rep.ok('C07.R8', 'ntod: new state from snstods@%s: numas += nacc@%s on every path' % (c.line, good[0].line))
+        else:
+            cond = [x for x in adds if any(b is br for b, t in cfg.control_deps_closure(x.blk))]
+            rep.fail('C07.R8', key, where(cond[0] if cond else c), 'ntod(): a new DFA state created by snstods() at line %s %s: yy_acclist is declared with numas + 1 entries, so the accepting lists of the last states lie outside the table'
+                     % (c.line, 'adds its nacc accepting rules to numas only under a further condition' if cond else 'never adds its nacc accepting rules to numas'),
+                     replay_input='%option reject\n%%\n[a-c]*  ECHO; REJECT;\n[a-c]+d ECHO;\n.|\\n ;   (a start state that accepts: yy_acclist[] gets fewer entries than initialisers)')
+    return n
+
 def run(ctx):
     rep = ctx.rep
-    r1(ctx); r2(ctx); r4(ctx); r3(ctx); r6(ctx); r7_case(ctx)
+    r1(ctx); r2(ctx); r4(ctx); r3(ctx); r6(ctx); r7_case(ctx); r8(ctx)
     # R5: the accepting lists REJECT walks (yy_acclist of the REJECT builds of the language probes) hold, for every reachable
     # state, exactly the rules that match there, once each, in rule order - read from the emitted tables, over all inputs
     import tbl
@@ -542,6 +581,7 @@ def run(ctx):
     rep.floor('C07.R6', 1, 'state-stack pushes in yylex, yy_get_previous_state, yy_try_NUL_trans of every REJECT variant')
     rep.floor('C07.R4', 2, 'REJECT and yyreject() detection rules of scan.l')
     rep.floor('C07.R7', 2, 'all_upper, all_lower')
+    rep.floor('C07.R8', 2, 'the two snstods call sites of ntod')
     rep.floor('C07.R5', 10, 'REJECT builds of the language probes')
     rep.undecided += ['the order in which a generated scanner visits (rule, length) alternatives at run time, yytext/yyleng per visit',
                       'find_rule / yy_state_buf walk in the skeletons (the pops and the yy_lp cursor; the push shape is R6)',
